@@ -239,6 +239,21 @@ def _stmt_span(body, prefix, nth):
     return start, end
 
 
+def count_bare_closures(text):
+    """closures `|..| BODY` in `text` that carry no requires/ensures: Verus knows nothing about
+    what such a closure returns, so an obligation that depends on it cannot be decided."""
+    n = 0
+    for (cs, ce, cb, cend) in _find_closures(text):
+        hdr = text[ce:cb]
+        if text[ce:].lstrip().startswith('->'):
+            k = text.find('{', ce)
+            hdr = text[ce:k if k >= 0 else len(text)]
+        if 'ensures' in hdr or 'requires' in hdr:
+            continue
+        n += 1
+    return n
+
+
 class Generated:
     def __init__(self):
         self.text = ''
@@ -250,6 +265,7 @@ class Generated:
         self.canaries = []       # labels expected to fail in canary mode
         self.fn_blocks = set()   # names of blocks that are extracted real functions
         self.dropped = []        # attribute/visibility text dropped
+        self.bare_closures = {}  # block name -> number of closures without a contract in the emitted text
 
 
 def render(template_text, flags=(), canary=False):
@@ -265,6 +281,8 @@ def render(template_text, flags=(), canary=False):
         cur_line[0] += s.count('\n')
         if block:
             g.blocks.append((start, cur_line[0], block[0], block[1]))
+            if '__canary_' not in block[0]:
+                g.bare_closures[block[0]] = g.bare_closures.get(block[0], 0) + count_bare_closures(s)
 
     skip_depth = 0
     while i < len(lines):
@@ -602,9 +620,11 @@ def _inline_helper(g, body, a):
     if ';' in expr:
         raise AnchorLost('helper %s is no longer a single expression' % a['name'])
     hdr, _ = rewrite.r12_strip_comments(h.header)
-    m = re.search(r'\((.*)\)', hdr, re.S)
+    htoks = lex(hdr)
+    k0 = next(i for i, t in enumerate(htoks) if t[0] == 'punct' and t[1] == '(')
+    c0 = match_close(htoks, k0)
     params = []
-    toks = lex(m.group(1))
+    toks = lex(hdr[htoks[k0][3]:htoks[c0][2]])
     depth = 0
     cur = []
     parts = []
